@@ -54,6 +54,7 @@ type Obligation struct {
 	Stubs     []string          `json:"stubs,omitempty"`
 	Outside   []string          `json:"outside,omitempty"`
 	Solver    string            `json:"solver,omitempty"`
+	WithPkgs  []string          `json:"with_pkgs,omitempty"`
 	AbstractConv bool           `json:"abstract_conv,omitempty"`
 	ExactFloat bool             `json:"exact_float,omitempty"`
 	Kind      string            `json:"kind,omitempty"` // "" (go harness) | "asm"
@@ -135,9 +136,9 @@ func harnessFns(pkg string) []string {
 }
 
 // buildNative compiles the test binary of one harness package (verifnative flavour).
-func buildNative(pkg, outDir string) (string, error) {
+func buildNative(pkg, outDir string, with []string) (string, error) {
 	repo := repoDir()
-	ov, err := symgo.Overlay(repo, filepath.Join(verifDir(), "harness"), pkg, true)
+	ov, err := symgo.OverlayAll(repo, filepath.Join(verifDir(), "harness"), pkg, with)
 	if err != nil {
 		return "", err
 	}
@@ -146,8 +147,10 @@ func buildNative(pkg, outDir string) (string, error) {
 	dir := filepath.Join(outDir, "native", strings.ReplaceAll(pkg, "/", "_"))
 	os.MkdirAll(dir, 0o755)
 	repl := map[string]string{}
+	fileNo := 0
 	for path, content := range ov {
-		real := filepath.Join(dir, filepath.Base(path))
+		fileNo++
+		real := filepath.Join(dir, fmt.Sprintf("%03d_%s", fileNo, filepath.Base(path)))
 		if err := os.WriteFile(real, content, 0o644); err != nil {
 			return "", err
 		}
@@ -191,6 +194,7 @@ type replayFile struct {
 	Vectors    [][]uint64       `json:"vectors"`
 	Finding    *symgo.Finding   `json:"finding,omitempty"`
 	Expect     string           `json:"expect,omitempty"`
+	WithPkgs   []string         `json:"with_pkgs,omitempty"`
 }
 
 var resultRe = regexp.MustCompile(`(?m)^VERIF-REPLAY-RESULT (\d+) (.*)$`)
@@ -308,7 +312,7 @@ func cmdCheck(args []string) int {
 	if len(obs) == 0 {
 		fatal(fmt.Errorf("no obligations for property %q", *prop))
 	}
-	outDir := filepath.Join(verifDir(), "out", *prop+"-"+*tierName)
+	outDir := filepath.Join(outRoot(), *prop+"-"+*tierName)
 	os.RemoveAll(outDir)
 	os.MkdirAll(outDir, 0o755)
 	if !*keep {
@@ -377,7 +381,7 @@ func cmdCheck(args []string) int {
 		for i := 0; i < n; i++ {
 			spec := symgo.RunSpec{RepoDir: repoDir(), HarnessDir: filepath.Join(verifDir(), "harness"), Pkg: o.Pkg, Fn: o.Fn, Params: params,
 				Sched: o.Sched, Preempt: tier.Preempt, Select: o.Select, LeakCheck: o.LeakCheck, Unwind: tier.Unwind, MaxPaths: tier.MaxPaths,
-				MaxSteps: tier.MaxSteps, MapOrder: o.MapOrder, TimeoutMs: qms, Redirects: o.Redirects, SampleEnds: nval, Solver: o.Solver, AbstractConv: o.AbstractConv, ExactFloat: o.ExactFloat}
+				MaxSteps: tier.MaxSteps, MapOrder: o.MapOrder, TimeoutMs: qms, Redirects: o.Redirects, SampleEnds: nval, Solver: o.Solver, AbstractConv: o.AbstractConv, ExactFloat: o.ExactFloat, WithPkgs: o.WithPkgs}
 			if n > 1 {
 				spec.SplitN, spec.SplitI, spec.SplitDepth = n, i, tier.SplitDepth
 				if spec.SplitDepth == 0 {
@@ -481,7 +485,7 @@ func cmdCheck(args []string) int {
 		finding int
 	}
 	byPkg := map[string][]*nativeReq{}
-	replayDir := filepath.Join(verifDir(), "out", "replays")
+	replayDir := filepath.Join(outRoot(), "replays")
 	os.MkdirAll(replayDir, 0o755)
 	for _, or := range results {
 		if or.res == nil {
@@ -501,7 +505,7 @@ func cmdCheck(args []string) int {
 		}
 		if or.ob.Replay != "none" {
 			for i, f := range or.res.Findings {
-				rf := &replayFile{Property: *prop, Obligation: or.ob.Name, Pkg: or.ob.Pkg, Fn: or.ob.Fn, Params: params, Vectors: [][]uint64{findingVector(f)}, Finding: f}
+				rf := &replayFile{Property: *prop, Obligation: or.ob.Name, Pkg: or.ob.Pkg, Fn: or.ob.Fn, Params: params, Vectors: [][]uint64{findingVector(f)}, Finding: f, WithPkgs: or.ob.WithPkgs}
 				p := filepath.Join(replayDir, fmt.Sprintf("%s-%s-%d.json", *prop, or.ob.Name, i))
 				byPkg[or.ob.Pkg] = append(byPkg[or.ob.Pkg], &nativeReq{or: or, rf: rf, path: p, kind: "finding", finding: i})
 			}
@@ -512,7 +516,21 @@ func cmdCheck(args []string) int {
 		nwg.Add(1)
 		go func(pkg string, reqs []*nativeReq) {
 			defer nwg.Done()
-			bin, err := buildNative(pkg, outDir)
+			var with []string
+			for _, r := range reqs {
+				for _, w := range r.or.ob.WithPkgs {
+					dup := false
+					for _, x := range with {
+						if x == w {
+							dup = true
+						}
+					}
+					if !dup {
+						with = append(with, w)
+					}
+				}
+			}
+			bin, err := buildNative(pkg, outDir, with)
 			if err != nil {
 				mu.Lock()
 				for _, r := range reqs {
@@ -733,14 +751,30 @@ func cmdCheck(args []string) int {
 		"violations":  violations,
 	}
 	eb, _ := json.MarshalIndent(ev, "", " ")
-	os.MkdirAll(filepath.Join(verifDir(), "evidence"), 0o755)
-	os.WriteFile(filepath.Join(verifDir(), "evidence", *prop+".json"), eb, 0o644)
+	os.MkdirAll(evidenceDir(), 0o755)
+	os.WriteFile(filepath.Join(evidenceDir(), *prop+".json"), eb, 0o644)
 	fmt.Printf("SUMMARY property=%s tier=%s obligations=%d discharged=%d inconclusive=%d violations=%d paths=%d queries=%d solver_s=%.1f validated=%d wall_s=%.1f\n",
 		*prop, *tierName, obligations, discharged, inconclusive, violations, states, queries, solverS, validated, wall)
 	if violations > 0 {
 		return 1
 	}
 	return 0
+}
+
+// outRoot / evidenceDir can be redirected (VERIF_OUT, VERIF_EVIDENCE) so that runs against a scratch
+// copy of the repository (seeded changes) do not disturb the registered evidence.
+func outRoot() string {
+	if d := os.Getenv("VERIF_OUT"); d != "" {
+		return d
+	}
+	return filepath.Join(verifDir(), "out")
+}
+
+func evidenceDir() string {
+	if d := os.Getenv("VERIF_EVIDENCE"); d != "" {
+		return d
+	}
+	return filepath.Join(verifDir(), "evidence")
 }
 
 func oneLine(s string) string {
@@ -787,6 +821,9 @@ func mergeResults(rs []*symgo.Result) *symgo.Result {
 	}
 	m := rs[0]
 	for _, r := range rs[1:] {
+		if len(m.EndSamples) == 0 && len(r.EndSamples) > 0 {
+			m.EndSamples, m.Concrete = r.EndSamples, r.Concrete
+		}
 		m.Paths += r.Paths
 		m.Completed += r.Completed
 		m.Instrs += r.Instrs
@@ -848,11 +885,11 @@ func cmdReplay(args []string) int {
 	if err := json.Unmarshal(b, &rf); err != nil {
 		fatal(err)
 	}
-	outDir := filepath.Join(verifDir(), "out", "replay-run")
+	outDir := filepath.Join(outRoot(), "replay-run")
 	os.RemoveAll(outDir)
 	os.MkdirAll(outDir, 0o755)
 	defer os.RemoveAll(outDir)
-	bin, err := buildNative(rf.Pkg, outDir)
+	bin, err := buildNative(rf.Pkg, outDir, rf.WithPkgs)
 	if err != nil {
 		fatal(err)
 	}
